@@ -364,6 +364,24 @@ theorem rinv {dirOn : Bool} {a0 : Nat} {script : List Reply} {t0 : Int} {s : RN}
     refine ⟨⟨hl.waiting, hl.retrying, dinv_congr (s := s) rfl rfl rfl rfl rfl hl.data⟩, ?_⟩
     exact hdue
 
+theorem runActs_reach {dirOn : Bool} {a0 : Nat} {script : List Reply} {t0 : Int} :
+    ∀ (acts : List Act) (s : RN), RReach dirOn a0 script t0 s → acts.all Act.ok = true →
+      ∀ t ∈ runActs s acts, RReach dirOn a0 script t0 t := by
+  intro acts
+  induction acts with
+  | nil => intro s _ _ t ht; simp [runActs] at ht
+  | cons a rest ih =>
+    intro s hs hok t ht
+    simp only [List.all_cons, Bool.and_eq_true] at hok
+    have hstep : RReach dirOn a0 script t0 (act s a) := by
+      cases a with
+      | adv d => exact .adv d (by simpa [Act.ok] using hok.1) hs
+      | anchors a => exact .anch a hs
+    simp only [runActs, List.mem_cons] at ht
+    rcases ht with ht | ht
+    · rw [ht]; exact hstep
+    · exact ih _ hstep hok.2 t ht
+
 theorem rreach_dirOn {dirOn : Bool} {a0 : Nat} {script : List Reply} {t0 : Int} {s : RN}
     (h : RReach dirOn a0 script t0 s) : s.dirOn = dirOn := by
   induction h with
